@@ -719,6 +719,18 @@ def mock_monitors(meta, lines, outs):
             for n, nd in enumerate(nodes):
                 if nd["kind"] in ("func", "mfunc", "async") and gpaths(a, n) != bcount.get((n, m), 0):
                     bad.append(("lost-message", "accepting graph, drained: message %d put through the gateway of node %d ran %d time(s) at node %d, expected %d" % (m, a, bcount.get((n, m), 0), n, gpaths(a, n))))
+    # what a gateway put is OFFERED to every direct successor of the async node's port that never leaves the successor list (a scripted sink that
+    # never takes over the edge; a queueing / unlimited function-like node), whatever the other successors answer -- also in graphs that are not
+    # "accepting" as a whole
+    for m, a in sorted(gorigin.items()):
+        for sidx in gsucc.get(a, []):
+            nd = nodes[sidx]
+            if nd["kind"] == "sink" and nd.get("regok", 0) == 0 and ocount.get((sidx, m), 0) < 1:
+                bad.append(("lost-message", "message %d put through the gateway of async node %d was never offered to its direct successor %d (a sink that never takes over "
+                            "the edge), although the put returned true" % (m, a, sidx)))
+            if nd["kind"] in ("func", "mfunc", "async") and (nd["pol"] == "q" or nd["maxc"] == 0) and drained and not risky and bcount.get((sidx, m), 0) < 1:
+                bad.append(("lost-message", "drained: message %d put through the gateway of async node %d never ran at its direct successor %d (queueing / unlimited: it "
+                            "accepts whatever it is offered)" % (m, a, sidx)))
     return bad
 
 
@@ -762,6 +774,10 @@ CORPUS = [
     # async node in front of a rejecting serial node: a gateway put that is rejected is reported as such (no buffering in the gateway)
     ["node 0 async 0 r 1", "node 1 func 1 r 0", "node 2 sink 0 0", "edge 0 1", "edge 1 2", "go", "put 0 1", "run b0.1", "gput 0 10", "gput 0 11", "grel 0",
      "wfa", "run b1.10", "gput 0 12", "run b1.12", "wfa"],
+    # the same with two more successors BEHIND the rejecting one on the async node's port: a gateway put that the busy serial node rejects (the edge
+    # flips, the node leaves the successor list) is still offered to every successor after it
+    ["node 0 async 0 r 1", "node 1 func 1 r 0", "node 2 sink 0 0", "node 3 sink 0 0", "node 4 sink 0 0", "edge 0 1", "edge 0 3", "edge 0 4", "edge 1 2", "go",
+     "put 0 1", "run b0.1", "gput 0 10", "gput 0 11", "grel 0", "wfa", "run b1.10", "gput 0 12", "run b1.12", "wfa"],
     # multifunction node
     ["node 0 mfunc 1 q", "node 1 func 1 r 0", "node 2 sink 3 1", "edge 0 1", "edge 0 2", "edge 1 2", "go",
      "put 0 3", "put 0 6", "put 0 7", "run b0.3", "run b0.6", "run b1.3", "run f1", "run b0.7", "run b1.7", "wfa"],
